@@ -61,6 +61,8 @@ enum Scope {
 enum Outcome {
     Ok(dns::Parsed),
     Err(String),
+    /// The caller dropped the request before it completed.
+    Abandoned,
 }
 
 #[derive(Clone, Debug)]
@@ -538,7 +540,52 @@ async fn client_task(led: Led, kn: Knobs, conn: Conn, ks: Vec<usize>, gaps: Vec<
         }
         ev!("req k={} invoke", k);
         let mut gr = conn.send_request(req);
-        let res = gr.get_response().await;
+        // What the caller does with the request: wait for it; drop the
+        // pending get_response() future and ask again (get_response is
+        // documented as cancel safe); or give the request up altogether.
+        let behaviour = sim::draw("caller.behaviour", 10);
+        let cancel_after = |label: &'static str| -> u64 {
+            match sim::draw(label, 4) {
+                0 => 0,
+                1 => 1 + sim::draw("caller.cancel_ms", 30),
+                2 => kn.dg_read_timeout_ms / 2,
+                _ => kn.dg_read_timeout_ms + 1,
+            }
+        };
+        let mut res = None;
+        if behaviour == 8 {
+            for _ in 0..1 + sim::draw("caller.repolls", 3) {
+                let d = cancel_after("caller.repoll_at");
+                match tokio::time::timeout(Duration::from_millis(d), gr.get_response()).await {
+                    Ok(r) => {
+                        res = Some(r);
+                        break;
+                    }
+                    Err(_) => {
+                        sim::sync_clock();
+                        sim::stat("fault.get_response_future_dropped");
+                        ev!("req k={} get_response future dropped after {} ms, asking again", k, d);
+                    }
+                }
+            }
+        } else if behaviour == 9 {
+            let d = cancel_after("caller.abandon_at");
+            match tokio::time::timeout(Duration::from_millis(d), gr.get_response()).await {
+                Ok(r) => res = Some(r),
+                Err(_) => {
+                    sim::sync_clock();
+                    drop(gr);
+                    sim::stat("fault.request_abandoned");
+                    let seq = ev!("req k={} abandoned after {} ms", k, d);
+                    led.borrow_mut().reqs[k].end = Some((sim::now_ns(), seq, Outcome::Abandoned));
+                    continue;
+                }
+            }
+        }
+        let res = match res {
+            Some(r) => r,
+            None => gr.get_response().await,
+        };
         sim::sync_clock();
         let end = sim::now_ns();
         let outcome = match res {
@@ -554,6 +601,7 @@ async fn client_task(led: Led, kn: Knobs, conn: Conn, ks: Vec<usize>, gaps: Vec<
         let seq = match &outcome {
             Outcome::Ok(p) => ev!("req k={} -> Ok id={} rcode={} q={:?} tokens={:?} tc={}", k, p.id, p.rcode, p.qname, p.tokens, p.tc),
             Outcome::Err(e) => ev!("req k={} -> Err {}", k, short_err(e)),
+            Outcome::Abandoned => 0,
         };
         let mut l = led.borrow_mut();
         if l.reqs[k].end.is_some() {
@@ -868,6 +916,9 @@ fn check(led: &Led, kn: &Knobs, total: usize, finished: bool, connect_faults: &[
                 return;
             }
         };
+        if matches!(outcome, Outcome::Abandoned) {
+            continue;
+        }
         // --- bounded completion
         let elapsed = end_ns.saturating_sub(r.start_ns);
         let bound = match kn.kind {
@@ -952,6 +1003,7 @@ fn check(led: &Led, kn: &Knobs, total: usize, finished: bool, connect_faults: &[
                     return;
                 }
             }
+            Outcome::Abandoned => {}
             Outcome::Err(e) => {
                 if explained {
                     continue;
